@@ -406,7 +406,9 @@ def rule_error_tables(ctx):
         kind = "GROUP" if h == "TxnOffsetCommitHandler" else "TRANSACTION"
         for n in c.calls(attr="_coordinator_dead"):
             ctx.ob(R, fi, n, unparse(arg_of(n.ast, 0)).endswith(kind), f"{h} forgets the wrong coordinator", text=f"{h}:dead-kind")
-        fe = ctx.fn(f"{MOD}.{h}.handle_error")
+        fe = ctx.repo.resolve_method(ctx.repo.cls(f"{MOD}.{h}"), "handle_error")
+        ctx.anchor(fe is not None, f"{h}.handle_error (through the class hierarchy)")
+        ctx.rep.functions.add(fe.qualname)
         ce = ctx.cfg(fe)
         dn = ce.calls(attr="_coordinator_dead")
         ctx.ob(R, fe, fe.node, len(dn) == 1 and unparse(arg_of(dn[0].ast, 0)).endswith(kind) and
